@@ -20,7 +20,6 @@ type obs struct {
 	Attempted int    // appends tried after open 1
 	Repair    string // none | wal | wbl | chunks (+ combinations joined by "+"), from the log messages of open 1
 	C1        []smp  // contents after open 1
-	First     []smp  // the out-of-order samples appended first after open 1 (part of Added)
 	Added     []smp  // samples acknowledged after open 1
 	C1b       []smp  // contents after the appends
 	Open2Err  string
@@ -96,29 +95,6 @@ func run(m *master, d damage, root string) (o obs) {
 	// out-of-order sample per series when the window allows it
 	t := m.maxT
 	v := m.nextV
-	// first an out-of-order sample for every known series (older than its newest sample, inside
-	// the window), before anything else is appended
-	if m.opts.OOOWindow > 0 {
-		// (a series never written before comes first of all, so that it is created before a
-		// series whose Series record was lost is created again)
-		in := []smp{{m.fresh, m.maxT + 3, v}}
-		v++
-		for s := 0; s < m.active; s++ {
-			tt := m.maxT - 17 - int64(s)
-			if tt > 0 && !m.used[[2]int64{int64(s), tt}] {
-				in = append(in, smp{s, tt, v})
-				v++
-			}
-		}
-		o.Attempted += len(in)
-		ack := tx(db, m, in)
-		o.Added = append(o.Added, ack...)
-		for _, x := range ack {
-			if x.S != m.fresh {
-				o.First = append(o.First, x)
-			}
-		}
-	}
 	for k := 0; k < 2; k++ {
 		t += 7
 		var in []smp
